@@ -1,6 +1,7 @@
 import ScrapliModel.Lemmas.Close
 import ScrapliModel.Close.AsIs
 import ScrapliModel.Generated.TransportClose
+import ScrapliModel.Generated.CapsReader
 /-!
 # C07 — Close always completes: no panic, deadlock, leaked goroutine or data race
 
@@ -42,10 +43,22 @@ cleanly: also when `Impl.Close()` returns an error (so `Channel.Close` and `Driv
 their `return err` path), an execution can only stop with the NETCONF read loop terminated, and
 the channel read loop terminated unless the transport's read stays blocked -/
 theorem close_error_still_terminates (s : St) (h : Reach s) (_ : s.closeErr = true)
-    (ht : next s = []) : (s.n = .absent ∨ s.n = .dead) ∧ (s.mode = .stay ∨ s.r = .dead) ∧ s.k = .ret := by
+    (ht : next s = []) : (s.n = .absent ∨ s.n = .dead) ∧ ((s.mode = .stay ∨ s.r = .dead) ∨ s.r = .never) ∧ s.k = .ret := by
   have g := inv_terminal_good s (reach_inv s h) ht
   simp only [good, Bool.and_eq_true, Bool.or_eq_true, decide_eq_true_eq] at g
   exact ⟨g.1.2, g.2, g.1.1.1.1.1.1.2⟩
+
+/-- Close before Open (the read loop was never started, `readLoopDone` is nil): every execution
+can only stop with `Close` returned and the transport implementation closed exactly once (through
+the grace timer and the forced path) -/
+theorem close_before_open (s₀ s : St) (l : List St) (h0 : isInit s₀ = true) (_ : s₀.r = .never)
+    (he : Exec s₀ l s) (ht : next s = []) : s.k = .ret ∧ s.closeCalls = 1 ∧ s.panic = .none := by
+  have hr : Reach s := exec_reach s₀ s l he (.init s₀ h0)
+  have g := inv_terminal_good s (reach_inv s hr) ht
+  simp only [good, Bool.and_eq_true, Bool.or_eq_true, decide_eq_true_eq] at g
+  exact ⟨g.1.1.1.1.1.1.2, g.1.1.1.1.2, g.1.1.1.1.1.1.1⟩
+
+example : isInit (mkPreOpen true .eofOnClose true) = true ∧ (mkPreOpen true .eofOnClose true).r = .never := by decide
 
 /-- until it has closed `done`, the closer's next step is always enabled: `Close` cannot block
 before it has signalled the read loop -/
@@ -138,6 +151,23 @@ on the forced path -/
 example : TC.bodyOk [.ifNotForce, .lock, .deferUnlock, .ifOther "!recv.Impl.IsAlive()", .ret "nil", .endIf, .endIf,
     .retImplClose] = false := by decide
 example : TC.bodyOk [.lock, .deferUnlock, .retImplClose] = false := by decide
+
+/-! ### `getServerCapabilities`: exactly one result per call (C07-F14)
+
+The reader goroutine `Open` starts for the NETCONF hello must hand over exactly one result on every
+path (two: the goroutine outlives `Close` for ever; none: the caller dereferences nil). Its body is
+regenerated from the source on every run (`Generated/CapsReader.lean`). -/
+
+/-- on every path the reader goroutine sends exactly once, and the caller receives exactly once -/
+theorem capsReader_one_result : OneResult.ok Gen.CapsReader.body Gen.CapsReader.receives = true := by decide
+
+/-- the body is the one the repair established -/
+theorem generated_capsReader_eq : Gen.CapsReader.body = OneResult.model := by decide
+
+/-- the obligation is not vacuous: the body before the repair has a path with two sends (read error
+that is not the timeout) and one with none (read finished as the timer expired) -/
+example : OneResult.allSends [.other "defer close(cr)", .other "b, err := d.Channel.ReadUntilPrompt(ctx)",
+    .ifCond "err != nil", .send, .endIf, .ifCond "ctx.Err() != nil", .ret, .endIf, .send] = [1, 2, 0, 1] := by decide
 
 /-! ### the unrepaired skeleton fails
 
